@@ -10,14 +10,20 @@ BATCH = 500
 BUDGET_S = {'quick': 70, 'thorough': 900}
 RULE = ('JSON: dictionaries with int (incl. negative, zero) and non-integer-like str top-level keys, nested '
         'values {None, bool, int, float, str, list, nested dict, NumPy scalars, ndarrays of every numeric dtype '
-        'incl. bool/float16/complex/big-endian, rank 0..3, empty, non-contiguous, Fortran order, 1-D of 9/10/11 '
-        'items, NaN inside arrays}. TSV/CSV: row lists over a field alphabet (>= 2 columns in the union) with '
-        'missing fields and fully empty rows, both delimiters, string cells that int()/float() reject incl. '
-        'tabs, commas, quotes; two-column cluster tables; parameter files. non-trivial = at least one array or '
-        'nested container (JSON) / at least two rows (tables)')
-ASSUMPTIONS = ['json / csv / base64 / number formatting and parsing / the Python parser are transport: exercised '
-               'through the real libraries here, hypotheses in the theorems',
-               'the written files are compared with the model text character by character only as a tally (never an alarm)']
+        'incl. bool/float16/complex/big-endian, rank 0..3, empty, C / Fortran / transposed / strided / reversed / '
+        'offset views (sent to the model with their real strides and offset), 1-D of 9/10/11 items, NaN inside '
+        'arrays}. TSV/CSV: row lists over a field alphabet (>= 2 columns in the union; names with spaces, commas, '
+        'quotes, a tab in .tsv files) with missing fields and fully empty rows, both delimiters, random integers, '
+        'floats (float / float32 / float64; exact ties of %.4f included) and random string cells that int()/float() '
+        'reject incl. tabs, commas, quotes; two-column cluster tables with negative and large ids and mixed value '
+        'kinds; the number grammar of _try_make_number on random strings; the csv module on random records; '
+        'parameter files with scalars, lists and tuples, quotes and backslashes inside lists, upper-case names. '
+        'non-trivial = at least one array or nested container (JSON) / at least two rows (tables)')
+ASSUMPTIONS = ['json / base64 / repr of floats are transport: exercised through the real libraries here, hypotheses in '
+               'the theorems; csv, universal newlines, int()/float(), %.nf and the literal fragment of the Python '
+               'parser are modelled (Model/C18c, C18p) and compared with the real libraries on every case',
+               'the written files are compared with the model text character by character only as a tally (never an '
+               'alarm); load_metadata on a two-column file is checked on the Python side against the Lean spec of the file']
 DTYPES = ['bool', 'int8', 'uint8', 'int16', 'int32', 'int64', 'uint64', 'float16', 'float32', 'float64',
           'complex64', 'complex128', '>f4', '>i2', '<u4']
 
